@@ -561,6 +561,53 @@ fn gen_shape(rng: &mut Rng, n: usize) -> Shape {
     Shape { parents, times }
 }
 
+/// layers of commits, each with two or three parents in the layer below: many criss-cross merges, and with
+/// skewed dates many common ancestors that are painted before their descendants
+fn gen_ladder(rng: &mut Rng) -> Shape {
+    let layers = 2 + rng.below(4) as usize;
+    let width = 2 + rng.below(2) as usize;
+    let mut parents: Vec<Vec<usize>> = Vec::new();
+    let mut prev: Vec<usize> = Vec::new();
+    let roots = 1 + rng.below(width as u64) as usize;
+    for _ in 0..roots {
+        prev.push(parents.len());
+        parents.push(vec![]);
+    }
+    for _ in 0..layers {
+        let mut cur = Vec::new();
+        for _ in 0..width {
+            let mut ps: Vec<usize> = Vec::new();
+            let k = 1 + rng.below(3) as usize;
+            for _ in 0..k {
+                let p = *rng.pick(&prev);
+                if !ps.contains(&p) {
+                    ps.push(p);
+                }
+            }
+            if rng.chance(1, 6) && !parents.is_empty() {
+                let p = rng.below(parents.len() as u64) as usize;
+                if !ps.contains(&p) && !cur.contains(&p) {
+                    ps.push(p);
+                }
+            }
+            cur.push(parents.len());
+            parents.push(ps);
+        }
+        prev = cur;
+    }
+    let n = parents.len();
+    let style = rng.below(4);
+    let times = (0..n)
+        .map(|i| match style {
+            0 => 100 + i as i64,
+            1 => 100 + rng.below(3) as i64,
+            2 => 100 + (n - i) as i64 + rng.below(3) as i64,
+            _ => 100 + i as i64 + if rng.chance(1, 3) { 50 + rng.below(20) as i64 } else { 0 },
+        })
+        .collect();
+    Shape { parents, times }
+}
+
 fn gen_id(rng: &mut Rng, used: &mut Vec<Vec<u8>>) -> Vec<u8> {
     loop {
         let id = match rng.below(3) {
@@ -661,9 +708,11 @@ fn build(rng: &mut Rng, mode: &str, s: &Shape, allow_missing: bool) -> Q {
     };
     let mut others = Vec::new();
     for _ in 0..k {
-        let o = pickc(rng);
-        if o == first && !rng.chance(1, 8) {
-            continue;
+        let mut o = pickc(rng);
+        let mut tries = 0;
+        while o == first && tries < 6 && !rng.chance(1, 12) {
+            o = pickc(rng);
+            tries += 1;
         }
         others.push(o);
     }
@@ -751,7 +800,7 @@ fn gen(rng: &mut Rng, n: usize) -> Vec<Case> {
             6..=8 => 8 + rng.below(8) as usize,
             _ => 16 + rng.below(14) as usize,
         };
-        let s = gen_shape(rng, size);
+        let s = if rng.chance(1, 3) { gen_ladder(rng) } else { gen_shape(rng, size) };
         let q = build(rng, mode, &s, true);
         out.push(to_case(&q));
     }
